@@ -291,11 +291,12 @@ func asDyn(gen proto.Message) *dynamic.Message {
 	return dm
 }
 
-// instance builds the spec in the requested representation ("gen" or "dyn").
+// instance builds the spec in the requested representation: "gen", or "dyn" /
+// "dyn@<provenance of the descriptor>" (prov.go).
 func (s *spec) instance(rep string) interface{} {
 	g := s.build()
-	if rep == "dyn" {
-		return asDyn(g)
+	if isDyn(rep) {
+		return asDynP(g, repProv(rep))
 	}
 	return g
 }
